@@ -30,6 +30,7 @@ import (
 	"encoding/hex"
 	"encoding/json"
 	"encoding/pem"
+	"errors"
 	"fmt"
 	"io"
 	"log"
@@ -47,6 +48,7 @@ import (
 	"strings"
 	"sync"
 	"sync/atomic"
+	"syscall"
 	"time"
 
 	"github.com/magisterquis/curlrevshell/lib/simpleshell"
@@ -758,8 +760,22 @@ func (l monListener) Addr() net.Addr { return l.ep.tcp.Addr() }
 
 var tokenCtr atomic.Int64
 
+// listenRetries counts the waits for a free port in startEndpoint.
+var listenRetries atomic.Int64
+
 func startEndpoint(id *identity, kind string, h2, tls13 bool) (*endpoint, error) {
-	tcp, err := net.Listen("tcp", "127.0.0.1:0")
+	// The machine's ephemeral ports are a budget shared with every process
+	// (connections in TIME-WAIT count for a minute): when none is free, wait for one.
+	var tcp net.Listener
+	var err error
+	for try := 0; ; try++ {
+		tcp, err = net.Listen("tcp", "127.0.0.1:0")
+		if err == nil || !errors.Is(err, syscall.EADDRINUSE) || try >= 180 {
+			break
+		}
+		listenRetries.Add(1)
+		time.Sleep(500 * time.Millisecond)
+	}
 	if err != nil {
 		return nil, err
 	}
@@ -946,6 +962,9 @@ func (ep *endpoint) probe() bool {
 	}
 	ep.probeAddr = c.LocalAddr().String()
 	ep.mu.Unlock()
+	if tc, ok := c.(*net.TCPConn); ok {
+		tc.SetLinger(0) // no data on it: closed by reset, it leaves no TIME-WAIT entry behind (port budget)
+	}
 	defer c.Close()
 	select {
 	case <-seen:
@@ -2113,6 +2132,11 @@ func Child(args []string) int {
 	} else {
 		r.Count("snapshot_monitor_controls_passed", 1)
 	}
+	if err := ownSocketControl(8); err != nil {
+		r.Inconclusive("the own-socket test of the listeners failed its control: " + err.Error())
+	} else {
+		r.Count("own_socket_controls_passed", 1)
+	}
 	if engine == "twin" {
 		w.verifyTwins()
 	}
@@ -2170,6 +2194,7 @@ func Child(args []string) int {
 		r.Count("process_session_cache_stores", w.cache.stores.Load())
 	}
 	r.Count("connections_from_other_processes_ignored_by_the_listeners", foreignConns.Load())
+	r.Count("waits_for_a_free_listener_port", listenRetries.Load())
 	if err := r.DumpChild(dump); err != nil {
 		fmt.Fprintln(os.Stderr, err)
 		return 2
@@ -2288,7 +2313,9 @@ func Run(r *mon.Run) {
 	add("twin", r.N(32, 640), 8)
 	add("host", r.N(len(hostKinds)*3, len(hostKinds)*50), 7)
 	var died atomic.Int64
-	mon.Parallel(len(batches), runtime.NumCPU(), func(i int) {
+	// at most 8 processes at a time: every call leaves one or two connections in
+	// TIME-WAIT for a minute, and the machine's ephemeral ports are a shared budget
+	mon.Parallel(len(batches), min(runtime.NumCPU(), 8), func(i int) {
 		bt := batches[i]
 		res, err := r.RunChild("", "c13", 10*time.Minute, bt.engine, strconv.Itoa(bt.start), strconv.Itoa(bt.count), idPath, bt.opt, bt.cfg)
 		if err != nil {
@@ -2315,6 +2342,7 @@ func Run(r *mon.Run) {
 
 	r.Count("proxy_requests_other_than_connect", 0)
 	r.Count("proxy_dial_failures", 0)
+	r.Count("waits_for_a_free_listener_port", 0)
 	r.Count("calls_repeated_after_a_reset_the_listener_never_saw", 0)
 	r.Count("connections_from_other_processes_ignored_by_the_listeners", 0)
 	r.Count("host_sequences_skipped_localhost_does_not_resolve", 0)
@@ -2428,6 +2456,7 @@ func Run(r *mon.Run) {
 	r.Floor("snapshot_checks_covering_the_process_own_transport", int64(r.N(300, 5000)))
 	r.Floor("own_transport_fields_compared", int64(r.N(300, 5000))*40)
 	r.Floor("snapshot_monitor_controls_passed", int64(len(batches)))
+	r.Floor("own_socket_controls_passed", int64(len(batches)*9/10))
 	r.Floor("wrapper_round_trips", int64(r.N(3, 30)))
 	r.Floor("own_proxy_func_consultations", int64(r.N(3, 30)))
 }
